@@ -154,7 +154,7 @@ var ocspCache = map[string][]byte{}
 
 // BuildOCSP creates a DER OCSPResponse (memoised).
 func BuildOCSP(a OCSPAnswer) []byte {
-	key := fmt.Sprintf("%d|%v|%p|%p|%v|%v|%v", a.Status, a.Serial, a.Issuer, a.Signer, a.EmbedCert, a.ThisUpdate.Unix(), a.NextUpdate.Unix())
+	key := fmt.Sprintf("%d|%v|%p|%p|%v|%v|%v|%v", a.Status, a.Serial, a.Issuer, a.Signer, a.EmbedCert, a.ThisUpdate.Unix(), a.NextUpdate.Unix(), a.RevokedAt.Unix())
 	certMu.Lock()
 	if b, ok := ocspCache[key]; ok {
 		certMu.Unlock()
